@@ -901,21 +901,24 @@ def file_rules(f):
     """(start, terminals, nonterminal names, rules [(lhs, [sym])]) from the canonical validated file."""
     start = cstr(f[1][0])
     terms = [cstr(v[1][0]) for v in f[1][1][1][2]]
-    nts, rules = [], []
+    nts, rules, used = [], [], []
     for n in f[1][2]:
         name = cstr(n[1][1][1][0])
         nts.append(name)
         fsets = [n[1][2]] if n[0] == 'Struct' else [v[1][1] for v in n[1][2]]
         for fs in fsets:
-            syms = []
+            syms, flags = [], []
             if fs[0] == 'Named':
                 for fld in fs[1][0]:
                     syms.append(_iot(fld[1][1]))
+                    flags.append(fld[1][0][0] != 'Underscore')
             elif fs[0] == 'Tuple':
                 for fld in fs[1][0]:
                     syms.append(_iot(fld[1][0]))
+                    flags.append(fld[0] == 'Used')
             rules.append((name, syms))
-    return start, terms, nts, rules
+            used.append(flags)
+    return start, terms, nts, rules, used
 
 
 def _iot(t):
@@ -923,9 +926,12 @@ def _iot(t):
 
 
 def lalr_reference(f, max_states=400):
+    return lalr_build(*file_rules(f)[:4], max_states=max_states)
+
+
+def lalr_build(start, terms, nts, rules, max_states=400):
     """Brute force: canonical LR(1) collection from the closure/goto definition, then merge
     states with equal cores.  Items are (rule or None, dot, lookahead or None)."""
-    start, terms, nts, rules = file_rules(f)
     by_lhs = {}
     for i, (lhs, rhs) in enumerate(rules):
         by_lhs.setdefault(lhs, []).append(i)
@@ -1034,7 +1040,8 @@ def lalr_reference(f, max_states=400):
             cell.setdefault(dem[0], dem[1])
         actions[c] = cell
     return dict(start=core(s0), states=merged, trans=mtrans, conflict=conflict, actions=actions,
-                terms=terms, nts=nts, rules=rules, canonical=(order, trans))
+                terms=terms, nts=nts, rules=rules, canonical=(order, trans), first=first, nullable=nullable,
+                startname=start)
 
 
 def machine_iso(parsed_states, parsed_trans, parsed_start, ref):
@@ -1089,7 +1096,7 @@ def compare_with_reference(pid, parsed, ref, gen_line):
         st = parsed['states'][c['state']]
         if c['item1'] not in st or c['item2'] not in st:
             return ('conflict-item-not-in-state', (c['item1'], c['item2']), 'both items in state %d' % c['state'])
-        start, terms, nts, rules = file_rules(parsed['file'])
+        start, terms, nts, rules, _ = file_rules(parsed['file'])
         d1 = item_demand(parsed, rules, start, c['state'], c['item1'])
         d2 = item_demand(parsed, rules, start, c['state'], c['item2'])
         if d1 is None or d2 is None or d1[0] != d2[0] or d1[1] == d2[1]:
